@@ -519,6 +519,10 @@ def run(ctx):
     c04_tref(_Relabel(ctx, {"C04-TREF": "C01-EPOCH"}), K)
     c15_tref(_Relabel(ctx, {"C15-TREF": "C01-EPOCH"}))
     # samples reach the kernel packed as (P, e, omega, M0, s) in internal units (shared with C05-FEED / C12-COL)
+    from .C15 import check_lock as c15_lock
+    ctx.rule("C01-DATA", "the data object the kernel reads keeps every observation paired: ONE selection (finite filter, then a stable time sort of the filtered rows) is applied "
+                         "alike to times, velocities and errors (shared with C15-LOCK).")
+    c15_lock(_Relabel(ctx, {"C15-LOCK": "C01-DATA"}))
     from .C05 import check_feed
     from .C12 import _reader_checks
     ctx.rule("C01-FEED", "prior samples reach the kernel packed in the helper's order and internal units on every path (shared with C05-FEED); the file readers convert from the "
